@@ -60,9 +60,23 @@ LIFE = [
 ]
 
 
+# the real engines UNDER THE SCHEDULER (harness/drv_sio_engine.cpp, oracle EngineTrace.tla): closes from several sides racing
+# each other - the peer's FIN / datagrams, the application's close from two threads, sends on a closing session, stop
+ENGINE_LIFE = [
+    "main=listen,peer:1,waitn:1,setflag:g,pclose:1 ; a=waitflag:g,close:1 ; b=waitflag:g,send:1:5,close:1",
+    "main=listen,peer:1,peer:2,waitn:2,setflag:g,psend:1:4,pclose:2,psend:1:4 ; a=waitflag:g,close:2,send:1:3 ; b=waitflag:g,close:1,close:2",
+    "main=listen,connect,waitn:2,setflag:g,close:1 ; a=waitflag:g,close:2,send:1:2 ; b=waitflag:g,send:2:7,close:1",
+    "main=listen,setflag:g,connect,close:0,connect ; a=waitflag:g,connect,close:0,close:0 ; b=waitflag:g,peer:1,psend:1:3,pclose:1",
+]
+
+
+def engine_nontrivial(evs):
+    return sum(1 for e in evs if e["e"] in ("CloseCall", "Close")) >= 2
+
+
 def run(ck):
     thorough = ck.tier == "thorough"
-    ck.make(tc.DRV, "drv_lifecycle")
+    ck.make(tc.DRV, "drv_lifecycle", tc.ENGINE_DRV)
     ck.rule = ("fan-out: observer/user-data registration programs racing the close on the real Transport (scripted engine, "
                "scheduler); engines: life-cycle scenario scripts on the real TCP/UDP engines over loopback; non-trivial = an "
                "observer was removed or two or more observers ran; for engine scenarios every execution counts")
@@ -102,7 +116,18 @@ def run(ck):
     tc.run_cases(ck, lines, "fanout", nontrivial)
     for j, p in enumerate(FAN[:2] if not thorough else FAN):
         tc.run_dfs(ck, p, 2 if thorough else 1, 30000 if thorough else 1500, "dfs%d" % j, nontrivial)
-    # real engines
+    # real engines under the scheduler
+    kw = dict(drv=tc.ENGINE_DRV, spec="EngineTrace")
+    elines = []
+    for proto in ("tcp", "udp", "tcpb"):
+        for pi, p in enumerate(ENGINE_LIFE):
+            for k in range((80 if thorough else 12) if proto != "tcpb" else (20 if thorough else 4)):
+                elines.append("%s | %s | %s %d" % (proto, p, "random" if k % 3 else "randomt", ck.seed * 8009 + pi * 211 + k))
+    tc.run_cases(ck, elines, "engine_life", engine_nontrivial, **kw)
+    for j, (proto, pi) in enumerate([("tcp", 0), ("udp", 2)] if not thorough else [("tcp", 0), ("udp", 2), ("tcp", 1), ("tcp", 3)]):
+        tc.run_dfs(ck, "%s | %s" % (proto, ENGINE_LIFE[pi]), 1 if not thorough else 2, 10000 if thorough else 400, "engine_dfs%d" % j,
+                   engine_nontrivial, **kw)
+    # real engines, real time
     reps = 4 if thorough else 1
     cases = LIFE * reps
     cp = os.path.join(ck.work, "life_cases.txt")
@@ -140,7 +165,7 @@ def run(ck):
 
 def replay(ck, path):
     case = open(os.path.join(path, "case.txt")).read().strip()
-    if case.startswith("tcp") or case.startswith("udp"):
+    if (case.startswith("tcp") or case.startswith("udp")) and case.count("|") == 1:
         ck.make("drv_lifecycle")
         cp = os.path.join(ck.work, "case.txt"); open(cp, "w").write(case + "\n")
         outp = os.path.join(ck.work, "replay.ndjson")
